@@ -3,11 +3,11 @@
 # the patch is applied in the worktree /tmp/vwt and the harness is built against it with cargo's `paths` override.
 set -u
 dir="$1"; shift
-wt=/tmp/vwt
+wt=/tmp/vwt2
 export CARGO_NET_OFFLINE=true
 cd "$wt" && git checkout -q -- . && git checkout -q --detach "$(git -C /repo rev-parse HEAD)" && git apply "$dir/patch.diff" || { echo "patch does not apply"; exit 2; }
 mkdir -p /tmp/bvroot/evidence /tmp/bvroot/harness; for f in oracle KNOWN_FINDINGS.json known.d; do ln -sfn /verif/$f /tmp/bvroot/$f; done
-cd /verif/harness && CARGO_TARGET_DIR=/verif/harness/target-mut cargo build --quiet --config 'paths=["/tmp/vwt/core/engine","/tmp/vwt/core/gc","/tmp/vwt/core/ast","/tmp/vwt/core/parser","/tmp/vwt/core/interner","/tmp/vwt/core/string","/tmp/vwt/core/macros"]' 2> /tmp/seeded-build.log || { echo "harness build against mutant failed"; tail -5 /tmp/seeded-build.log; cd $wt; git checkout -q -- .; exit 2; }
+cd /verif/harness && CARGO_TARGET_DIR=/verif/harness/target-mut cargo build --quiet --config 'paths=["/tmp/vwt2/core/engine","/tmp/vwt2/core/gc","/tmp/vwt2/core/ast","/tmp/vwt2/core/parser","/tmp/vwt2/core/interner","/tmp/vwt2/core/string","/tmp/vwt2/core/macros"]' 2> /tmp/seeded-build.log || { echo "harness build against mutant failed"; tail -5 /tmp/seeded-build.log; cd $wt; git checkout -q -- .; exit 2; }
 for p in "$@"; do
   BV_ROOT=/tmp/bvroot VERIF_SEED="${VERIF_SEED:-1}" /verif/harness/target-mut/debug/bv check "$p" quick > /tmp/seeded-$p.log 2>&1; rc=$?
   echo "check $p on $(basename "$dir"): exit $rc $(grep -a "quick:" /tmp/seeded-$p.log | tail -1)"
